@@ -48,7 +48,7 @@ func lowest(mask int) int {
 
 // plans lists the outermost loop: RTO x answer plan x delay x noise.
 func plans(thorough bool) []plan {
-	rtos := []int{0, 100, 200, 400, 800, 1600}
+	rtos := []int{0, 100, 200, 300, 400, 800, 1000, 1600} // 300 and 1000 are not of the form 1600/2^k: the doubling crosses the cap between two values
 	delays := []string{"imm", "half", "pre", "post"}
 	var masks []int
 	for i := 1; i <= maxSends; i++ { // quick: one answered transmission, or two (the second answer is a late duplicate)
